@@ -63,9 +63,9 @@ def graph(date: str, targets: tuple | None = None):
     return dag, fno
 
 
-def simulate_all(df, date, **kw):
-    """All function nodes of the default graph as targets, plus the data columns."""
-    nodes = computed_nodes(date)
+def simulate_all(df, date, base_targets=None, **kw):
+    """All function nodes of the (default) graph as targets, plus the data columns."""
+    nodes = computed_nodes(date, base_targets)
     res = simulate(df, date, targets=nodes, **kw)
     for c in df.columns:
         if c not in res.columns:
